@@ -208,11 +208,15 @@ def run_case(case):
 
 def _symlink_copy(m, sid):
     st = m.steps.get(sid)
+    if st and st['kind'] == 'symlink':      # soname / development links of a versioned library
+        return True
     return bool(st and st['kind'] == 'copy' and m.byid[st['node']]['mode'] == 'symlink')
 
 
 def _linky(m, fid):
     sid = m.producer.get(fid)
+    if sid and m.steps[sid]['kind'] == 'symlink':
+        return True
     if sid and m.steps[sid]['kind'] == 'copy':
         nd = m.byid[m.steps[sid]['node']]
         return nd['mode'] != 'copy'
